@@ -157,7 +157,12 @@ def run(tier: str, seed: int, t0: float) -> int:
     # ---- G + T exhaustive small scope
     # two textblock types, one of them with two attribute values: a replace that rebuilds a node from the wrong
     # side (slice instead of document) must show in the markup
-    gb = universe.bounds(5 if not thorough else 6, attrs={"h": [{"level": "1"}, {"level": "2"}]})
+    # ... and two links that differ only in an attribute: text on the two sides of a seam with marks of the same type
+    # but different attributes must not be merged
+    LU = {"t": "link", "a": "{\"href\":\"u\"}"}
+    LV = {"t": "link", "a": "{\"href\":\"v\"}"}
+    gb = universe.bounds(5 if not thorough else 6, attrs={"h": [{"level": "1"}, {"level": "2"}]},
+                         marksets=((), (universe.EM,), (LU,), (LV,)))
     sch, js, docs = universe.tlc_docs("s1t", gb, stats)
     real = [proj.unproj(sch, d) for d in docs]
     for d, rd in zip(docs, real):
@@ -166,7 +171,7 @@ def run(tier: str, seed: int, t0: float) -> int:
     cuts = all_cuts(sch, real)
     b = trace.Batch(js)
     budget = 60000 if not thorough else 600000
-    triples = []
+    pairs_ = []
     for d, rd in zip(docs, real):
         di = b.doc(d)
         n = len(d)
@@ -174,14 +179,25 @@ def run(tier: str, seed: int, t0: float) -> int:
             for t in range(f, n + 1):
                 ev_slice(b, sch, rd, di, f, t)
                 ev_cut(b, sch, rd, di, f, t)
-                for (sl, p) in cuts:
-                    triples.append((rd, di, f, t, sl, p))
-    rng.shuffle(triples)
-    stats.bounds["replace_triples_total"] = len(triples)
-    stats.exhaustive = len(triples) <= budget
-    for (rd, di, f, t, sl, p) in triples[:budget]:
+                pairs_.append((rd, di, f, t))
+    total = len(pairs_) * len(cuts)
+    stats.bounds["replace_triples_total"] = total
+    stats.exhaustive = total <= budget
+    if total <= budget:
+        chosen = [(rd, di, f, t, sl, p) for (rd, di, f, t) in pairs_ for (sl, p) in cuts]
+    else:
+        # a uniform sample of (document, range, slice) triples, drawn without building the product
+        seen_t = set()
+        chosen = []
+        while len(chosen) < budget:
+            i, j = rng.randrange(len(pairs_)), rng.randrange(len(cuts))
+            if (i, j) in seen_t:
+                continue
+            seen_t.add((i, j))
+            chosen.append((*pairs_[i], *cuts[j]))
+    for (rd, di, f, t, sl, p) in chosen:
         ev_replace(b, sch, rd, di, f, t, sl, b.slice(p))
-    stats.bounds["replace_triples_run"] = min(len(triples), budget)
+    stats.bounds["replace_triples_run"] = len(chosen)
     stats.bounds["docs_exhaustive"] = len(docs)
     stats.bounds["slices_exhaustive"] = len(cuts)
     jobs = [(b, "G+T")]
